@@ -296,7 +296,7 @@ def harness(eng, sp):
 
 
 # ---------------------------------------------------------------------------
-def check_chart(eng, desc, spec, fig, xlim, key="C20/bars"):
+def check_chart(eng, desc, spec, fig, xlim, key="C20/bars", job_labels=None):
     ax = fig.ax
     sched = spec.scheduled_ops()
     if len(ax.bars) != len(sched):
@@ -344,7 +344,7 @@ def check_chart(eng, desc, spec, fig, xlim, key="C20/bars"):
         labels = {h.get_label(): tuple(h.get_facecolor()) for h in handles}
         for j, cs in colours.items():
             c = next(iter(cs))
-            lab = f"Job {j}"
+            lab = f"Job {j}" if job_labels is None else job_labels[j]
             if lab not in labels:
                 eng.fail(key + "/legend-misses-a-job", f"{lab} not in {sorted(labels)}")
             elif c is None or tuple(round(float(x), 6) for x in labels[lab]) != tuple(round(float(x), 6) for x in c):
@@ -378,7 +378,8 @@ def bars_harness(eng, sp):
         eng.reachable("state")
         REC.reset()
         try:
-            fig, ax = plot_gantt_chart(disp.schedule, xlim=sp["xlim"])
+            labels = [f"job <{j}>" for j in range(desc.n_jobs)] if sp["xlim"] else None
+            fig, ax = plot_gantt_chart(disp.schedule, xlim=sp["xlim"], job_labels=labels)
         except E.Unsupported:
             raise
         except E.PathAbort:
@@ -390,7 +391,7 @@ def bars_harness(eng, sp):
                 eng.fail(f"C20/bars/exception-{type(ex).__name__}", f"{ex}"[:200])
             fig = None
         if fig is not None:
-            check_chart(eng, desc, spec, fig, sp["xlim"])
+            check_chart(eng, desc, spec, fig, sp["xlim"], job_labels=labels)
         if k == desc.n_ops:
             break
         op, m = D.choose_dispatch(eng, desc, spec)
